@@ -63,8 +63,8 @@ def load_known_findings():
     return json.load(open(p)).get("findings", [])
 
 
-def run_verus(gen_path, rlimit, threads=16, extra=()):
-    cmd = ["verus", gen_path, "--output-json", "--time", "--multiple-errors", "8", "--error-format=json",
+def run_verus(gen_path, rlimit, threads=16, extra=(), multiple_errors="8"):
+    cmd = ["verus", gen_path, "--output-json", "--time", "--multiple-errors", multiple_errors, "--error-format=json",
            "--rlimit", str(rlimit), "--num-threads", str(threads), "--triggers-mode", "silent"] + list(extra)
     t0 = time.time()
     r = sh(cmd, cwd=os.path.dirname(gen_path))
@@ -163,6 +163,7 @@ class Session:
         self.tier = tier
         self.use_cache = use_cache
         self.t0 = time.time()
+        self.solo_retries = []
 
     def prepare(self):
         try:
@@ -264,14 +265,42 @@ class Session:
             raise Undecided("verus produced no JSON (rc=%s): %s" % (res["rc"], res["stderr_tail"][-800:]))
         failed, other, rlimit = classify(res["diags"], self.lines, self.fns)
         if rlimit:
-            # one retry at 3x before giving up; definite failures of either run are kept
-            res2 = self.cached("main_rl%d" % (rl * 3), lambda: run_verus(self.gen_path, rl * 3))
-            failed2, other2, rlimit = classify(res2["diags"], self.lines, self.fns)
-            seen = {(f["fn"], f["label"], f["message"], str(f["repo"])) for f in failed2}
-            failed = failed2 + [f for f in failed if (f["fn"], f["label"], f["message"], str(f["repo"])) not in seen]
-            other = other or other2
-            res2["wall"] = res["wall"] + res2["wall"]
-            res = res2
+            # A resource limit is never an alarm.  Each function that hit it is re-run alone (its own module context, 3x the limit),
+            # first with the same options, then with --multiple-errors 1 (a different query shape): any accepted run is a proof;
+            # definite failures of any run are kept; only a function that exhausts every configuration stays undecided.
+            still = []
+            done = set()
+            for r in rlimit:
+                k = r.get("fn")
+                if k is None or k not in self.fns:
+                    still.append(r)
+                    continue
+                if k in done:
+                    continue
+                done.add(k)
+                mod = k.split("::")[0].replace("lib", "lib_")
+                name = self.fns[k].gen_name
+                pat = ("*::" + name) if k.count("::") >= 2 else name
+                ok = False
+                for tag, me in (("a", "8"), ("b", "1")):
+                    extra = ["--verify-only-module", mod, "--verify-function", pat]
+                    rr = self.cached("solo_%s_%s_rl%d" % (hashlib.sha256(k.encode()).hexdigest()[:8], tag, rl * 3),
+                                     lambda: run_verus(self.gen_path, rl * 3, extra=extra, multiple_errors=me))
+                    if rr["json"] is None:
+                        continue
+                    f2, o2, rl2 = classify(rr["diags"], self.lines, self.fns)
+                    res["wall"] += rr["wall"]
+                    seen = {(f["fn"], f["label"], f["message"], str(f["repo"])) for f in failed}
+                    failed += [f for f in f2 if (f["fn"], f["label"], f["message"], str(f["repo"])) not in seen]
+                    vr2 = rr["json"].get("verification-results", {})
+                    if not rl2 and not o2 and (vr2.get("verified", 0) > 0 or f2):
+                        ok = True
+                        self.solo_retries.append(dict(function=k, config="alone, rlimit x3, --multiple-errors %s" % me,
+                                                      verified=vr2.get("verified"), errors=vr2.get("errors")))
+                        break
+                if not ok:
+                    still.append(r)
+            rlimit = still
         self.main = res
         self.failed, self.other, self.rlimit = failed, other, rlimit
         vr = res["json"].get("verification-results", {})
@@ -388,6 +417,7 @@ def write_evidence(sess, prop, tier, failed, known, undecided=None, wall=0.0, ka
             failed=[dict(fn=f["fn"], label=f["label"], message=f["message"], repo=f["repo"]) for f in failed],
             known_findings_reported=known,
             undecided=undecided,
+            resource_limit_retries=getattr(sess, "solo_retries", []),
             kani=kani,
             extraction_log=sess.sp.log[:80] if sess and hasattr(sess, "sp") else [],
         ),
@@ -402,13 +432,15 @@ ASSUMPTIONS = [
     "T1 buffer_redux::BufReader behaves as the stub specs in contracts/00_prelude.rs (written from buffer-redux 1.0.2 StdBuf, includes its unsafe code)",
     "T2 the io::Read/Seek source delivers consecutive bytes of a fixed file, returns 0 only at end of input, a failing call changes nothing, finitely many consecutive Interrupted",
     "T3 memchr::memchr / Memchr return the first / all indices of the needle",
-    "T4 assumed specifications of std items listed in trusted_base (split_last, split, chunks, ...); vstd's specs of Vec/slice/Option/Result",
+    "T4 assumed specifications of std items listed in trusted_base (split_last, split, splitn, chunks, str::from_utf8 with uninterpreted valid_utf8/str_bytes, ...); vstd's specs of Vec/slice/Option/Result",
+    "T5b lending a sink (&mut W) to another writer function keeps what the sink will finally contain (axiom_lend_keeps_fin)",
     "T5 io::Write sink appends exactly the bytes passed to write_all",
     "T6 user policies return None or a size strictly larger than the current one (proved for the three built-in policies)",
     "T7 derived Clone/PartialEq/PartialOrd behave structurally",
     "T8 soundness of Verus 0.2026.09.13 + Z3, Kani 0.68 + CBMC 6.11, rustc; usize is 64-bit",
     "T9 file length < 2^62, allocations succeed and never exceed isize::MAX bytes",
-    "Dropped from the verified text: doc comments, #[inline]/#[allow] attributes, Debug/serde derives, Display/Error impls, from_path*, parallel.rs",
+    "Dropped from the verified text: doc comments, #[inline]/#[allow] attributes, Debug/serde derives, Display/Error impls, from_path*, parallel.rs, id_desc() (str::splitn over the unstable Pattern trait)",
+    "Rewrites applied mechanically by the extractor and listed per function: R7 for-in-&mut -> iter_mut, R8 for -> loop+next, R9 byte-string literal -> array, R10 assert! -> if/panic, R11 .all(f) -> its loop, R12 `?` -> match/From, R13 named tail, R14 closure tuple parameter, R15 trait impl -> inherent impl (owned-record iterators), R16 .nth(K) unrolled",
 ]
 
 
